@@ -28,7 +28,7 @@ from common import req, close, relerr, TOL, run_driver
 
 META = {
     'text': 'Theorems (Lean 4, over the reals, any number of dead-oil compounds and tracked atmospheric gases): returned mass fluxes are non-negative; exactly proportional to the requested rate; the dead-oil components keep their given proportions and order (gas block = natural gas x beta, atmospheric gases zero; normalisation / absolute scale of the given masses irrelevant - also checked on the real code component-wise and by the metamorphic predicate get_oil(lambda*masses) = get_oil(masses)); the liquid (gas, for the gas-rate convention) volume flow of the returned fluxes at standard conditions equals the requested rate EXACTLY, given (hypotheses) homogeneity of the flash and scale invariance of density and that the rated phase is present - when it is absent no scaling can meet a positive rate (rate_target_infeasible_absent_phase); PARTIAL: the gas-to-oil ratio of the returned fluxes equals the requested one IF the value returned by fsolve is a root of gas_fraction (gor_target_if_root). That fsolve returns a root is NOT proved: it is observed on the real get_oil over the quantifier by re-flashing the returned fluxes at 288.15 K, 101325 Pa, with coverage floors per GOR band (0, 10-1000, >1000, >5000) as obligations. The model is tied to the real code by oracle-table correspondence (recorded flash / density answers and the recorded root replayed through the model).',
-    'note': 'PARTIAL: convergence of scipy.optimize.fsolve inside mix_gas_for_gor is a library contract that is only sampled, and observed to FAIL (known finding gor-fsolve-start-beyond-dew-point) for dead oils with a small C8+ fraction once GOR exceeds about 2000 scf/bbl - about a quarter of random database oils at 5000-20000; second known finding: gas-rate convention for a gas-free oil returns NaN silently. Both known keys are emitted only after their signature is verified on the case (all gas at the first guess + fsolve returned it + a root found by bisection; resp. fp_type 0, gor 0, no gas phase, all NaN); the share of cases ending in a known signature and of time-outs is bounded by obligations; a raise of get_oil is a keyed violation. Trusted: Lean kernel + 3 standard axioms; the hand transcription Model/Oil.lean (validated each run by the correspondence); real arithmetic for IEEE doubles. The flash and the equations of state are oracle parameters; their homogeneity / scale invariance are HYPOTHESES sampled on every case. Only the TAMOC-database branch of get_oil is modelled (no ADIOS/GNOME import).',
+    'note': 'PARTIAL: convergence of scipy.optimize.fsolve inside mix_gas_for_gor is a library contract that is only sampled, and observed to FAIL (known finding gor-fsolve-start-beyond-dew-point) for dead oils with a small C8+ fraction once GOR exceeds about 2000 scf/bbl - about a quarter of random database oils at 5000-20000; second known finding: gas-rate convention for a gas-free oil returns NaN silently. Both known keys are emitted only after their signature is verified on the case (all gas at the first guess + fsolve returned it + a root found by bisection; resp. fp_type 0, gor 0, no gas phase, all NaN); the share of cases ending in a known signature and of time-outs is bounded by obligations; a raise of get_oil is a keyed violation. Trusted: Lean kernel + 3 standard axioms; the hand transcription Model/Oil.lean (validated each run by the correspondence); real arithmetic for IEEE doubles. The flash and the equations of state are oracle parameters; their homogeneity / scale invariance are HYPOTHESES sampled on every case. The targets are judged on a FluidMixture the harness builds itself (database constants, own evaluation of the documented Pedersen coefficients); the returned mixture must carry exactly these constants. Only the TAMOC-database branch of get_oil is modelled (no ADIOS/GNOME import).',
     'technique': 'Lean 4 proof over a hand-written model + oracle-table correspondence + re-flash of the real outputs with coverage floors',
 }
 GEN = []
@@ -270,6 +270,60 @@ def reflash(oil, mflux):
     return m, vg, vl
 
 
+_AIR_HYDRO = {'nitrogen': 0.08, 'oxygen': 0.08, 'carbon_dioxide': 0.01}
+_AIR_ORDER = ['nitrogen', 'oxygen', 'carbon_dioxide']
+_AIR_GAS = {'nitrogen': [0.0311, 0.0515, 0.0852, 0.1033, 0.08], 'oxygen': [0.0311, 0.0515, 0.0852, 0.1033, 0.08],
+            'carbon_dioxide': [0.12, 0.12, 0.12, 0.12, 0.12]}
+
+
+def own_pedersen(M, comp):
+    """the harness's OWN evaluation of the binary interaction coefficients documented for dbm_utilities.pedersen
+    (Pedersen et al., Table 4.2): 0.00145 * max(Mi/Mj, Mj/Mi) between the natural-gas hydrocarbons; tabulated values
+    between N2 / O2 / CO2 and the natural-gas hydrocarbons; among N2 / O2 / CO2 the heavy-hydrocarbon value of the one
+    listed later; zero for every compound outside {pseudo-components, N2, O2, CO2, C1-nC4} (database liquids, argon)."""
+    n = len(comp)
+    D = np.zeros((n, n))
+    for i in range(n):
+        for j in range(n):
+            if i == j:
+                continue
+            a, b = comp[i], comp[j]
+            if a in GAS and b in GAS:
+                D[i, j] = 0.00145 * max(M[j] / M[i], M[i] / M[j])
+            elif a in _AIR_ORDER and b in GAS:
+                D[i, j] = _AIR_GAS[a][GAS.index(b)]
+            elif b in _AIR_ORDER and a in GAS:
+                D[i, j] = _AIR_GAS[b][GAS.index(a)]
+            elif a in _AIR_ORDER and b in _AIR_ORDER:
+                later = a if _AIR_ORDER.index(a) > _AIR_ORDER.index(b) else b
+                D[i, j] = _AIR_HYDRO[later]
+    return D
+
+
+_CONSTANTS = ('M', 'Pc', 'Tc', 'omega', 'Vc', 'Vb', 'Tb', 'kh_0', 'neg_dH_solR', 'nu_bar', 'K_salt', 'B', 'dE', 'C_pen', 'C_pen_T',
+              'delta_groups', 'calc_delta')
+
+
+def reference_mixture(exp_comp):
+    """FluidMixture of the expected composition built by the HARNESS straight from the chemical database (no user_data
+    re-packed by the builder) with the harness's own Pedersen coefficients: the thermodynamics the targets are judged in"""
+    from tamoc import dbm
+    db = dbm.FluidMixture(list(exp_comp))
+    return dbm.FluidMixture(list(exp_comp), delta=own_pedersen(db.M, list(exp_comp)))
+
+
+def mixture_differences(oil, ref):
+    bad = []
+    for a in _CONSTANTS:
+        x, y = np.asarray(getattr(oil, a, np.nan), dtype=float), np.asarray(getattr(ref, a), dtype=float)
+        if x.shape != y.shape or not np.array_equal(x, y, equal_nan=True):
+            bad.append(a)
+    x, y = np.asarray(oil.delta, dtype=float), np.asarray(ref.delta, dtype=float)
+    if x.shape != y.shape or not np.all(np.abs(x - y) <= 1e-12):
+        bad.append('delta')
+    return bad
+
+
 def run_case(ctx, c, worst):
     """real code + predicates; returns the driver lines and a comparison closure (or None)"""
     from tamoc import dbm_utilities
@@ -300,6 +354,18 @@ def run_case(ctx, c, worst):
                       rep)
         c['outcome'] = 'violation'
         return None
+    # the mixture returned by the builder must be the database mixture of the expected composition with the documented
+    # interaction coefficients; the targets are judged on the harness's own mixture, never on the returned object
+    ref = reference_mixture(exp_comp)
+    diff = mixture_differences(oil, ref)
+    if diff:
+        ctx.violation('get_oil-mixture-constants:' + '+'.join(diff),
+                      'the FluidMixture returned by get_oil does not carry the database constants / documented Pedersen interaction '
+                      'coefficients of its composition (differs in %s)' % ', '.join(diff),
+                      dict(rep, differs=diff, delta_returned=np.asarray(oil.delta).tolist(), delta_expected=ref.delta.tolist()))
+        c['outcome'] = 'violation'
+        return None
+    oil = ref
     root = rec.roots[-1] if rec.roots else None
     if c['gor'] > 0. and root is None:
         ctx.violation('get_oil-no-root-find', 'gor > 0 but mix_gas_for_gor did not call the root finder', rep)
